@@ -116,6 +116,17 @@ def check(case):
     # recorded / requested step times the controller's maximum growth factor (1 + pi/2)
     hmax = 2.6 * max(hmax, min(abs(case["dt"]), abs(tf - t0)))
     rate, scale = P.rate(), P.scale()
+    if "terminated upon finding a triggered event" in a.integration_status and N >= 1:
+        # ... and its end state is not in the record either: the same run without events, carried one (inflated) step past
+        # the stop, contains that step - its grid error bounds the error of the interpolant the event was located on
+        ref = de.OdeSystem(EV.ExactProblem(case["prob"], t0), y0=P.y0.copy(), t=(t0, tf), dense_output=False, dt=case["dt"], rtol=case["rtol"], atol=case["atol"])
+        ref.method = M.get(method)
+        beyond = float(t[-1]) + sgn * hmax
+        if not case["infinite"] and sgn * (beyond - tf) > 0:
+            beyond = tf
+        if traj.run_integrate(ref, np.float64(beyond), step_limit=len(t) + 200) is None:
+            tr_, yr_ = np.asarray(ref.t, dtype=np.float64), np.asarray(ref.y, dtype=np.float64)
+            grid_err = max(grid_err, max(float(np.max(np.abs(yr_[k] - P.exact(tr_[k])))) for k in range(len(tr_))))
     herm = 8 * hmax ** 4 / 384.0 * rate ** 4 * scale if P.kind != "const" else 0.0
     if rich:
         herm += 1000 * (case["atol"] + case["rtol"] * scale)
